@@ -515,7 +515,109 @@ func c06Replay(args []string) int {
 	return 0
 }
 
-func init() { cmds["c06-replay"] = c06Replay }
+// ---- CsvSkip.tla cases on the real legacy csv reader: header_row_index / data_row_index as physical line numbers
+
+type csvSkipCase struct {
+	Items []string `json:"items"`
+	H     int      `json:"h"`
+	D     int      `json:"d"`
+	Err   bool     `json:"err"`
+	Recs  []int    `json:"recs"`
+}
+
+func c06CsvSkip(args []string) int {
+	sum := newSummary()
+	schemas := map[string]omniparser.Schema{}
+	nviol := 0
+	err := readLines(args[0], func(line []byte) error {
+		var c csvSkipCase
+		if e := json.Unmarshal(line, &c); e != nil {
+			return e
+		}
+		hdr := ""
+		if c.H > 0 {
+			hdr = fmt.Sprintf(`"header_row_index": %d, `, c.H)
+		}
+		schema := fmt.Sprintf(`{"parser_settings": {"version": "omni.2.1", "file_format_type": "csv"},
+ "file_declaration": {"delimiter": ",", %s"data_row_index": %d, "columns": [{"name": "c1"}, {"name": "c2"}]},
+ "transform_declarations": {"FINAL_OUTPUT": {"object": {"id": {"xpath": "c1", "no_trim": true}}}}}`, hdr, c.D)
+		sch := schemas[schema]
+		if sch == nil {
+			var e error
+			var p string
+			sch, e, p = newSchema([]byte(schema))
+			if e != nil || p != "" {
+				return fmt.Errorf("csv schema rejected: %v %s\n%s", e, p, schema)
+			}
+			schemas[schema] = sch
+		}
+		var in strings.Builder
+		name := func(i int) string {
+			switch c.Items[i-1] {
+			case "H":
+				return "c1"
+			case "D":
+				return fmt.Sprintf("d%d", i)
+			case "J":
+				return fmt.Sprintf("j%d", i)
+			case "Q":
+				return fmt.Sprintf("q%d\nmore", i)
+			}
+			return ""
+		}
+		for i, k := range c.Items {
+			switch k {
+			case "H":
+				in.WriteString("c1,c2\n")
+			case "E":
+				in.WriteString("\n")
+			case "Q":
+				in.WriteString(`"` + name(i+1) + `",z` + "\n")
+			default:
+				in.WriteString(name(i+1) + ",x\n")
+			}
+		}
+		out := runTranscript(sch, strings.NewReader(in.String()), RunOpts{MaxReads: len(c.Items) + 4})
+		var got []string
+		gotErr := out.NewTrErr != ""
+		for _, r := range out.Results {
+			switch r.Class {
+			case "ok":
+				var m struct{ ID string }
+				json.Unmarshal([]byte(r.Out), &m)
+				got = append(got, m.ID)
+			case "eof":
+			default:
+				gotErr = true
+			}
+		}
+		var want []string
+		for _, i := range c.Recs {
+			want = append(want, name(i))
+		}
+		sum.eval(len(c.Items) >= 2 && (c.H > 1 || c.D > 2), M{"c": c})
+		if out.Panic != "" || gotErr != c.Err || (!c.Err && fmt.Sprint(got) != fmt.Sprint(want)) {
+			nviol++
+			if nviol <= 20 {
+				violation("C06", "csv-row-index", fmt.Sprintf("legacy csv, header_row_index %d data_row_index %d, input %q: expected header error=%v records %q; got error=%v records %q %s",
+					c.H, c.D, in.String(), c.Err, want, gotErr, got, out.Panic), M{"schema": schema, "input": in.String(), "case": c})
+			}
+		}
+		return nil
+	})
+	if err != nil {
+		fmt.Println("error:", err)
+		return 3
+	}
+	sum.inc("mismatches", nviol)
+	sum.done()
+	return 0
+}
+
+func init() {
+	cmds["c06-csvskip"] = c06CsvSkip
+	cmds["c06-replay"] = c06Replay
+}
 
 // ---- B2: larger random tables; observed column values are mapped back to field symbols and TLC evaluates
 // FlatLines!Ref / FlatLines!Run on the logged table.
